@@ -399,20 +399,22 @@ pub struct Variant {
     /// configured log sync interval of both ports (C12, odd workers: -4, i.e. twice the announce rate; else that of
     /// the announce interval)
     pub sync_log: i8,
+    /// configured minorVersionPTP of both ports (C10, odd workers: 0; else the default 1)
+    pub minor_version: u8,
 }
 
 impl Variant {
     pub fn from_index(first: u64, prop: &str) -> Variant {
         let alt = (first / 4) % 2 == 1;
         let other_domain = first % 3 == 1;
-        Variant { path_trace: first % 2 == 1, udp: (first / 2) % 2 == 1, swap: alt && prop != "C12" && prop != "C06" && prop != "C09" && prop != "C08", p2p: (alt && (prop == "C12" || prop == "C09")) || prop == "C14", sdo: if other_domain { 0x1a5 } else { 0 }, domain: if other_domain { 7 } else { 0 }, alt, aml: (prop == "C14" || prop == "C07") && first % 2 == 1, long_timeout: prop == "C14", slow_other_port: prop == "C06" && alt, asym_ns: if prop == "C09" { [0i64, -2_000_000, 1_500_000, 12_345_678][(first % 4) as usize] } else { 0 }, own_p1: if prop == "C05" { [128u8, 127, 129, 128][(first % 4) as usize] } else { 128 }, own_p2: if prop == "C05" { [128u8, 128, 127, 129][(first % 4) as usize] } else { 128 }, slave_only: prop == "C08" && alt && first % 2 == 0, master_only: if prop == "C08" && alt { [None, Some('b'), Some('b'), Some('a')][(first % 4) as usize] } else if prop == "C07" && alt { Some('b') } else { None }, empty_aml_a: prop == "C05" && first % 8 >= 6, lenient_establish: prop == "C05", sync_log: if prop == "C12" && first % 2 == 1 { ANN_LOG - 1 } else { ANN_LOG } }
+        Variant { path_trace: first % 2 == 1, udp: (first / 2) % 2 == 1, swap: alt && prop != "C12" && prop != "C06" && prop != "C09" && prop != "C08", p2p: (alt && (prop == "C12" || prop == "C09")) || prop == "C14", sdo: if other_domain { 0x1a5 } else { 0 }, domain: if other_domain { 7 } else { 0 }, alt, aml: (prop == "C14" || prop == "C07") && first % 2 == 1, long_timeout: prop == "C14", slow_other_port: prop == "C06" && alt, asym_ns: if prop == "C09" { [0i64, -2_000_000, 1_500_000, 12_345_678][(first % 4) as usize] } else { 0 }, own_p1: if prop == "C05" { [128u8, 127, 129, 128][(first % 4) as usize] } else { 128 }, own_p2: if prop == "C05" { [128u8, 128, 127, 129][(first % 4) as usize] } else { 128 }, slave_only: prop == "C08" && alt && first % 2 == 0, master_only: if prop == "C08" && alt { [None, Some('b'), Some('b'), Some('a')][(first % 4) as usize] } else if prop == "C07" && alt { Some('b') } else { None }, empty_aml_a: prop == "C05" && first % 8 >= 6, lenient_establish: prop == "C05", sync_log: if prop == "C12" && first % 2 == 1 { ANN_LOG - 1 } else { ANN_LOG }, minor_version: if prop == "C10" && first % 2 == 1 { 0 } else { 1 } }
     }
     pub fn index(&self) -> u64 {
         self.path_trace as u64 + 2 * self.udp as u64 + 4 * self.alt as u64
     }
     pub fn from_render(v: &Value, prop: &str) -> Variant {
         let alt = v["variant_alt"].as_bool().unwrap_or(false);
-        let mut var = Variant { path_trace: v["path_trace"].as_bool().unwrap_or(false), udp: v["transport"].as_str() == Some("udp-ipv4"), swap: alt && prop != "C12" && prop != "C06" && prop != "C09" && prop != "C08", p2p: (alt && (prop == "C12" || prop == "C09")) || prop == "C14", sdo: 0, domain: 0, alt, aml: false, long_timeout: prop == "C14", slow_other_port: prop == "C06" && alt, asym_ns: 0, own_p1: 128, own_p2: 128, slave_only: false, master_only: None, empty_aml_a: false, lenient_establish: prop == "C05", sync_log: ANN_LOG };
+        let mut var = Variant { path_trace: v["path_trace"].as_bool().unwrap_or(false), udp: v["transport"].as_str() == Some("udp-ipv4"), swap: alt && prop != "C12" && prop != "C06" && prop != "C09" && prop != "C08", p2p: (alt && (prop == "C12" || prop == "C09")) || prop == "C14", sdo: 0, domain: 0, alt, aml: false, long_timeout: prop == "C14", slow_other_port: prop == "C06" && alt, asym_ns: 0, own_p1: 128, own_p2: 128, slave_only: false, master_only: None, empty_aml_a: false, lenient_establish: prop == "C05", sync_log: ANN_LOG, minor_version: 1 };
         // sdoId / domain are a function of the worker index
         let again = Variant::from_index(var.index(), prop);
         var.sdo = again.sdo;
@@ -424,6 +426,7 @@ impl Variant {
         var.slave_only = again.slave_only;
         var.empty_aml_a = again.empty_aml_a;
         var.sync_log = again.sync_log;
+        var.minor_version = again.minor_version;
         var.master_only = again.master_only;
         var
     }
@@ -550,8 +553,8 @@ impl World {
             p2 = variant.own_p2,
             sl = variant.sync_log,
             inst = if variant.slave_only { "slave-only = true\n" } else { "" },
-            xa = format!("{}{}", if variant.master_only == Some(if variant.swap { 'b' } else { 'a' }) { "master-only = true\n" } else { "" }, if variant.empty_aml_a && !variant.swap { "acceptable-master-list = []\n" } else { "" }),
-            xb = format!("{}{}", if variant.master_only == Some(if variant.swap { 'a' } else { 'b' }) { "master-only = true\n" } else { "" }, if variant.empty_aml_a && variant.swap { "acceptable-master-list = []\n" } else { "" }),
+            xa = format!("{}{}{}", if variant.minor_version != 1 { format!("minor-ptp-version = {}\n", variant.minor_version) } else { String::new() }, if variant.master_only == Some(if variant.swap { 'b' } else { 'a' }) { "master-only = true\n" } else { "" }, if variant.empty_aml_a && !variant.swap { "acceptable-master-list = []\n" } else { "" }),
+            xb = format!("{}{}{}", if variant.minor_version != 1 { format!("minor-ptp-version = {}\n", variant.minor_version) } else { String::new() }, if variant.master_only == Some(if variant.swap { 'a' } else { 'b' }) { "master-only = true\n" } else { "" }, if variant.empty_aml_a && variant.swap { "acceptable-master-list = []\n" } else { "" }),
             lb = if variant.slow_other_port { 0 } else { ANN_LOG },
             aml = format!("{}{}{}", if variant.asym_ns != 0 { format!("delay-asymmetry = {}\n", variant.asym_ns) } else { String::new() }, if variant.aml { "acceptable-master-list = [\"001b19cc00000002\", \"001b19cc00000007\", \"001b19cc00000021\"]\n" } else { "" }, if variant.long_timeout { "announce-receipt-timeout = 8\n" } else { "" })
         );
@@ -1949,6 +1952,10 @@ pub fn case_c10(w: &mut World, t: &mut Tape) -> E2eOut {
         }
         if h.domain != w.variant.domain || h.major_sdo != (w.variant.sdo >> 8) as u8 || h.minor_sdo != w.variant.sdo as u8 || h.version != 2 {
             out.fail("daemon: emitted frame bears a wrong domain / sdoId / version", format!("type {} domain {} sdo {}/{} version {}", h.msg_type, h.domain, h.major_sdo, h.minor_sdo, h.version));
+        }
+        // what the port originates bears the configured minorVersionPTP (responses echo the requester's)
+        if matches!(h.msg_type, T_ANNOUNCE | T_SYNC | T_FOLLOW_UP) && h.minor_version != w.variant.minor_version {
+            out.fail("daemon: emitted frame does not bear the configured minorVersionPTP", format!("type {} minorVersionPTP {} (configured {}) ; {}", h.msg_type, h.minor_version, w.variant.minor_version, rendered));
         }
         if m.encode().len() > 1024 {
             out.fail("daemon: emitted frame longer than 1024 bytes", format!("{}", m.encode().len()));
@@ -3818,6 +3825,7 @@ pub fn worker_main(args: &[String]) -> i32 {
             o.insert("own_priority2".into(), json!(variant.own_p2));
             o.insert("slave_only".into(), json!(variant.slave_only));
             o.insert("log_sync_interval".into(), json!(variant.sync_log));
+            o.insert("minor_version_ptp".into(), json!(variant.minor_version));
             o.insert("empty_acceptable_master_list_on_first_segment".into(), json!(variant.empty_aml_a));
             o.insert("master_only_port_on_segment".into(), json!(variant.master_only.map(|c| c.to_string())));
         }
